@@ -27,7 +27,7 @@ The theorems of Properties/C09.lean are about `Cfg.repaired`; the `…_defect` w
 Not modelled: listeners that re-enter (halt an event, disconnect or send from inside a handler), a custom
 OpenFlowConnectionArbiter (the default one always answers `core.openflow`), message types other than the eight of `Msg`,
 multi-part stats replies (C17), framing (C02), xid wrap-around after 2^31-1 messages, the DeferredSender (stubbed: C20).
-Core only; total functions; no recursion at all except `List.foldl`/`List.flatMap`. -/
+Core only; total functions; the model itself has no recursion except `List.foldl`/`List.flatMap`, the history observers at the end recurse structurally on the trace. -/
 namespace Pox.Conn
 
 structure Cfg where
